@@ -191,6 +191,18 @@ def pair_adts(base_adts, cur_adts):
     for (_k, (ms, ns)) in groups.items():
         if len(ms) == 1 and len(ns) == 1:
             ren[ns[0]] = ms[0]
+    # moved to another module under the same name, with the same layout
+    moved = {}
+    for p in missing:
+        if p not in ren.values():
+            moved.setdefault((base_name(p), adt_shape(p, base_adts[p])), ([], []))[0].append(p)
+    for p in new:
+        k = (base_name(p), adt_shape(p, cur_adts[p]))
+        if p not in ren and k in moved:
+            moved[k][1].append(p)
+    for (ms, ns) in moved.values():
+        if len(ms) == 1 and len(ns) == 1:
+            ren[ns[0]] = ms[0]
     members = {}
     back = {v: k for k, v in ren.items()}
     for p, b in base_adts.items():
@@ -306,6 +318,13 @@ def _module_sub(text, mods):
     return rx.sub(lambda m: mods[m.group(1)], text)
 
 
+def _path_sub(text, paths):
+    """Full paths of moved types, wherever they occur (inside type strings, behind a crate prefix)."""
+    for n, o in sorted(paths.items(), key=lambda kv: -len(kv[0])):
+        text = re.sub(r"(?<![A-Za-z0-9_])%s(?![A-Za-z0-9_])" % re.escape(n), o, text)
+    return text
+
+
 def _token_sub(text, tokens):
     if not tokens:
         return text
@@ -326,6 +345,7 @@ def plan(files):
     B = baseline()
     tokens, exact, notes = {}, {}, []
     mods = {}
+    paths = {}
     struct_members = {}
     conflicts = set()
 
@@ -365,6 +385,11 @@ def plan(files):
         if badts is not None:
             aren, members = pair_adts(badts, in_reviewed_modules(d.get("adts", {})))
             for n, o in aren.items():
+                if container(n) != container(o):
+                    paths[n] = o
+                    notes.append("type `%s` is the reviewed tree's `%s` (moved)" % (n, o))
+                    if base_name(n) == base_name(o):
+                        continue
                 want(base_name(n), base_name(o), "type")
             for p, m in members.items():
                 for kind, what in (("variants", "variant"), ("fields", "field")):
@@ -393,8 +418,8 @@ def plan(files):
         for fd in d["fns"]:
             if fd.get("kind") == "closure" or "{closure" in fd["path"]:
                 continue
-            sig = _token_sub(_module_sub(fn_signature(fd), mods), type_tokens)
-            cur[_token_sub(_module_sub(fd["path"], mods), type_tokens)] = {"sig": sig, "body": fn_body_summary(fd), "real": fd["path"]}
+            sig = _token_sub(_path_sub(_module_sub(fn_signature(fd), mods), paths), type_tokens)
+            cur[_token_sub(_path_sub(_module_sub(fd["path"], mods), paths), type_tokens)] = {"sig": sig, "body": fn_body_summary(fd), "real": fd["path"]}
         for n, o in pair_fns(bf, cur).items():
             real = cur[n]["real"]
             if container(n) != container(o):
@@ -408,7 +433,7 @@ def plan(files):
                 notes.append("function `%s` is the reviewed tree's `%s` (exact paths only: the new name is not fresh)" % (real, o))
     for c in conflicts:
         tokens.pop(c, None)
-    return {"tokens": tokens, "modules": mods, "exact": exact, "members": struct_members, "notes": sorted(set(notes))}
+    return {"tokens": tokens, "modules": mods, "paths": paths, "exact": exact, "members": struct_members, "notes": sorted(set(notes))}
 
 
 def restore_params(d):
@@ -486,7 +511,7 @@ def normalise(outdir, fact_files, use_plan=None):
         pl = use_plan
     notes = list(pl["notes"])
     for f, t in texts.items():
-        t2 = _exact_sub(_token_sub(_module_sub(t, pl.get("modules", {})), pl["tokens"]), pl["exact"])
+        t2 = _exact_sub(_token_sub(_path_sub(_module_sub(t, pl.get("modules", {})), pl.get("paths", {})), pl["tokens"]), pl["exact"])
         d = json.loads(t2)
         pn = restore_params(d) if isinstance(d, dict) and "fns" in d else []
         pn += restore_files(d) if isinstance(d, dict) and "fns" in d else []
